@@ -65,8 +65,7 @@ struct Req {
 	bool has_id = false;
 	uint16_t cur_id = 0;
 	int id_epoch = 0;
-	int64_t t_id_set = 0;
-	size_t nreplies_at_id = 0;
+	int64_t t_id_first = 0;	// when the current id was first seen on a query of this request
 	std::vector<int> replies;	// indices into Run::sent
 	// getaddrinfo
 	int fam = 0, gai_flags = 0, socktype = 0, port = 0;
@@ -99,6 +98,7 @@ struct Run {
 	std::vector<SentReply> sent;
 	bool randomize_case = true;
 	int edns = 512;
+	std::vector<std::pair<int64_t, int>> edns_hist;	// (virtual time, edns-udp-size) every time it was set
 	int attempts = 3;
 	int64_t timeout_ms = 5000, min_timeout_ms = 5000;
 	int max_inflight = 64;
@@ -247,18 +247,25 @@ static void c36_check_query(const std::string &pkt, bool tcp, int nsidx, dw::Msg
 	if (m.q.size() != 1) { V("C36", "C36.question-count", "query carries %zu questions", m.q.size()); ok = false; return; }
 	if (!m.an.empty() || !m.ns.empty()) V("C36", "C36.query-sections", "query carries answer/authority records");
 	// the packet of a request is built when the request (or its search / TCP successor) is made: the size in force then or now
-	int e1 = R->edns, e2 = R->edns;
+	// the packet of a request is built when the request (or its search / TCP successor) is made: any size that was in force
+	// between the moment the request was made and now
+	std::set<int> sizes = {R->edns};
 	bool internal_probe = false;	// the library's own "is the nameserver back" query: made at a time the harness does not see
-	if (m.q.size() == 1) { int ri = match_request(m.q[0].name, m.q[0].type, m.id); if (ri >= 0) e2 = R->reqs[ri].edns; else internal_probe = lc(dw::dotted(m.q[0].name)) == "google.com"; }
+	if (m.q.size() == 1) {
+		int ri = match_request(m.q[0].name, m.q[0].type, m.id);
+		if (ri >= 0) { sizes.insert(R->reqs[ri].edns); for (auto &h : R->edns_hist) if (h.first >= R->reqs[ri].t_submit) sizes.insert(h.second); }
+		else internal_probe = lc(dw::dotted(m.q[0].name)) == "google.com";
+	}
 	int nopt = 0;
 	for (auto &r : m.ar) if (r.type == dw::T_OPT) {
 		nopt++;
 		if (!r.name.empty()) V("C36", "C36.opt-record", "OPT record owner name is not the root");
-		if ((int)r.cls != e1 && (int)r.cls != e2 && !internal_probe) V("C36", "C36.opt-record", "OPT record advertises %u bytes, configured edns-udp-size is %d", r.cls, R->edns);
+		if (!sizes.count((int)r.cls) && !internal_probe) V("C36", "C36.opt-record", "OPT record advertises %u bytes, configured edns-udp-size is %d", r.cls, R->edns);
 	}
 	if ((size_t)nopt != m.ar.size()) V("C36", "C36.query-sections", "query carries additional records other than OPT");
-	bool ok1 = (e1 > 512) ? nopt == 1 : nopt == 0, ok2 = (e2 > 512) ? nopt == 1 : nopt == 0;
-	if (!ok1 && !ok2 && !internal_probe) V("C36", "C36.opt-presence", "query has %d OPT record(s), edns-udp-size is %d", nopt, R->edns);
+	bool okp = false;
+	for (int e : sizes) if ((e > 512) ? nopt == 1 : nopt == 0) okp = true;
+	if (!okp && !internal_probe) V("C36", "C36.opt-presence", "query has %d OPT record(s), edns-udp-size is %d", nopt, R->edns);
 	const dw::Name &qn = m.q[0].name;
 	for (auto &lab : qn) if (lab.empty()) V("C36", "C36.empty-label", "question name has an empty label");
 	if (dw::wire_len(qn) > 255) V("C36", "C36.name-too-long", "question name takes %zu octets on the wire", dw::wire_len(qn));
@@ -422,7 +429,9 @@ static void ns_on_query(int nsidx, const std::string &pkt, Ns::Conn *conn, const
 		rq.t_last_query = G.now_ns;
 		// case: with randomize-case off the name must be written exactly as requested
 		size_t pos = std::find(rq.expect.begin(), rq.expect.end(), lname) - rq.expect.begin();
-		if (!R->randomize_case && !rq.rc && pos == 0 && rq.search_pos <= 0 && rq.kind <= K_AAAA) {
+		bool other_rc = false;	// another request for the same name made while randomize-case was on: the query may be its
+		for (auto &o : R->reqs) if (o.qtype == qtype && o.rc && std::find(o.expect.begin(), o.expect.end(), lname) != o.expect.end()) other_rc = true;
+		if (!R->randomize_case && !rq.rc && !other_rc && pos == 0 && rq.search_pos <= 0 && rq.kind <= K_AAAA) {
 			std::string want = rq.name;
 			while (!want.empty() && want.back() == '.') want.pop_back();
 			if (rq.expect.size() == 1 && dw::dotted(q.q[0].name) != want && lc(want) == lname)
@@ -485,11 +494,10 @@ static void on_query_sent(const std::string &pkt) {
 		if ((int)pos > rq.search_pos) { if (rq.search_pos >= 0) { probe("search-list-step"); R->non_first_try++; } rq.search_pos = (int)pos; }
 	}
 	if (rq.has_id && rq.cur_id != m.id) probe("transaction-id-changed");
+	if (!rq.has_id || rq.cur_id != m.id || rq.id_epoch != R->epoch) rq.t_id_first = G.now_ns;
 	rq.has_id = true;
 	rq.cur_id = m.id;
 	rq.id_epoch = R->epoch;
-	rq.t_id_set = G.now_ns;
-	rq.nreplies_at_id = rq.replies.size();
 }
 // evaluated before every wait of the loop: all deferred result callbacks have run by then, so a request without a callback
 // (and not cancelled, not failed by evdns_base_free) is in flight inside the library
@@ -505,7 +513,10 @@ static void check_ids_unique() {
 		// sent for it and its first timeout cannot have passed
 		// (the same holds for a request with search candidates or a TCP fallback ahead of it: an answer may have moved it on to
 		// a successor that is still waiting for a free slot and has no id yet)
-		if (q.replies.size() != q.nreplies_at_id || G.now_ns - q.t_id_set >= std::min<int64_t>(R->timeout_ms, R->min_timeout_ms) * 1000000) continue;
+		bool answered = false;	// (a retransmission keeps the id: an older reply, maybe still unread in the socket, can complete it)
+		for (int x : q.replies) if (R->sent[x].q_id == q.cur_id) answered = true;
+		// (1 ms of slack: the library's timers count in microseconds from a cached clock)
+		if (answered || G.now_ns - q.t_id_first >= std::min<int64_t>(R->timeout_ms, R->min_timeout_ms) * 1000000 - 1000000) continue;
 		open++;
 		auto ins = owner.emplace(q.cur_id, (int)i);
 		if (!ins.second) {
@@ -866,7 +877,7 @@ static void set_option(int o, int64_t v) {
 	case 2: { int m = (int)(1 + v % 8); if (vk::rng_byte_mask == 1) m = std::min(m, 2); else if (vk::rng_byte_mask != 0xff) m = std::min(m, 8); snprintf(val, sizeof val, "%d", m); R->max_inflight = m; break; }
 	case 3: snprintf(val, sizeof val, "%d", (int)(v % 2)); R->randomize_case = v % 2; break;
 	case 4: snprintf(val, sizeof val, "%d", (int)(1 + v % 4)); break;
-	case 5: { int sz = (int[]){512, 513, 1232, 4096, 65535}[v % 5]; snprintf(val, sizeof val, "%d", sz); R->edns = sz; break; }
+	case 5: { int sz = (int[]){512, 513, 1232, 4096, 65535}[v % 5]; snprintf(val, sizeof val, "%d", sz); R->edns = sz; R->edns_hist.push_back({G.now_ns, sz}); break; }
 	case 6: R->tcp_global_usevc = true; break;
 	case 7: R->igntc_global = true; break;
 	case 8: snprintf(val, sizeof val, "%s", (const char *[]){"0.1", "1", "10"}[v % 3]); break;
@@ -962,12 +973,14 @@ static void exec_op(const Op &op, int idx) {
 		int shape = (int)(op.a[0] % 8);
 		bool null_node = false;
 		switch (shape) {
-		case 0: case 1: case 2: q.name = "g" + std::to_string(op.a[5] % 4) + ".test"; break;	// few distinct names: cache and hosts hits
+		// C38: few distinct names, so that the cache and the hosts file are hit; elsewhere one name per request, so that a
+		// query on the wire belongs to exactly one request
+		case 0: case 1: case 2: q.name = "g" + std::to_string(R->plan->prop == "C38" ? op.a[5] % 4 : 100 + ri) + ".test"; break;
 		case 3: q.name = "10.1.2." + std::to_string(ri % 250); q.numeric = true; break;
 		case 4: q.name = "2001:db8::" + std::to_string(ri % 99); q.numeric = true; break;
-		case 5: q.name = "hostsname" + std::to_string(op.a[5] % 3); break;
+		case 5: q.name = R->plan->prop == "C38" ? "hostsname" + std::to_string(op.a[5] % 3) : "h" + std::to_string(ri) + "name"; break;
 		case 6: null_node = true; q.numeric = true; q.name = ""; break;
-		default: q.name = "G" + std::to_string(op.a[5] % 4) + ".Test"; break;
+		default: q.name = "G" + std::to_string(R->plan->prop == "C38" ? op.a[5] % 4 : 100 + ri) + ".Test"; break;
 		}
 		static const int ports[] = {0, 80, 443, 65535};
 		q.port = ports[op.a[1] % 4];
